@@ -421,8 +421,8 @@ def _read_host(r: Reader, host: str):
                     r.pos += 1
             # PATH without RELATIVITY: FILE-NAME is a STRING (a token that looks like an option is not modelled)
             t = r.require_token()
-            if t.all_naked and t.vsrc.startswith('-'):
-                raise Unsupported('option-like file name')
+            if t.vsrc.lstrip(ALL_WS).startswith('-'):
+                raise Unsupported('option-like file name')  # PATH: [RELATIVITY-OPTION] FILE-NAME
             for m in REF_RE.finditer(t.string):
                 if r.symbols.get(m.group(1), ('string', ''))[0] != 'string':
                     raise Unsupported('list / path symbol in a file name')
